@@ -28,6 +28,23 @@ BITS_TO_C_DTYPE = {
 BITS_TO_NP_DTYPE = {8: np.int8, 16: np.int16, 32: np.int32, 64: np.int64}
 
 
+def _walsh_gate_ids(weight: torch.Tensor) -> torch.Tensor:
+    """Gate ids of Walsh-parametrised neurons.
+
+    Each row of `weight` holds the coefficients (w0, wA, wB, wAB) of the form
+    w0 + wA*A + wB*B + wAB*A*B with A, B in {-1, +1}. In eval mode the neuron
+    outputs [form > 0], so its gate id is the sign pattern of the form at the
+    four corners AB = 00, 01, 10, 11 (most significant bit first).
+    """
+    w = weight.detach()
+    ids = torch.zeros(w.shape[0], dtype=torch.int64, device=w.device)
+    for a in (-1, 1):
+        for b in (-1, 1):
+            form = w[:, 0] + w[:, 1] * a + w[:, 2] * b + w[:, 3] * a * b
+            ids = 2 * ids + (form > 0).to(torch.int64)
+    return ids
+
+
 class CompiledLogicNet(torch.nn.Module):
     """
     Unified compiled logic network that handles convolutional, pooling, and linear layers.
@@ -90,7 +107,7 @@ class CompiledLogicNet(torch.nn.Module):
                 self.layer_order.append(('pool', len(self.pooling_layers) - 1))
             elif isinstance(layer, LogicDense):
                 self.linear_layers.append(
-                    (layer.indices[0], layer.indices[1], layer.weight.argmax(1))
+                    (layer.indices[0], layer.indices[1], layer.get_gate_ids())
                 )
                 self.layer_order.append(('linear', len(self.linear_layers) - 1))
             elif isinstance(layer, torch.nn.Flatten):
@@ -124,11 +141,15 @@ class CompiledLogicNet(torch.nn.Module):
 
     def _extract_conv_layer_info(self, layer: Union[LogicConv2d, LogicConv3d]) -> Dict[str, Any]:
         """Extract information from a LogicConv2d or LogicConv3d layer for compilation."""
+        is_walsh = getattr(layer, "parametrization", "raw") == "walsh"
         tree_operations = []
         for level_idx, level_weights in enumerate(layer.tree_weights):
             level_ops = []
             for weight_param in level_weights:
-                ops = weight_param.argmax(1).cpu().numpy()
+                if is_walsh:
+                    ops = _walsh_gate_ids(weight_param).cpu().numpy()
+                else:
+                    ops = weight_param.argmax(1).cpu().numpy()
                 level_ops.append(ops)
             tree_operations.append(level_ops)
 
